@@ -692,7 +692,9 @@ func (ls *LanceroSource) launchLanceroReader() {
 					}
 					dev.card.ReleaseBytes(dropFromStart) // we could instead remember dropFromStart and add it
 					// to the later call to ReleaseBytes
-					dropFromEnd := dev.frameSize - dropFromStart
+					// When the lost bytes include a frame start, the next frame start lies more than one
+					// frame into the buffer; the partial data dropped at both ends still adds up to whole frames.
+					dropFromEnd := dev.frameSize - dropFromStart%dev.frameSize
 					if dropFromEnd <= 0 {
 						fmt.Printf("firstWord %v, dropFromStart %v, dropFromEnd %v\n", firstWord, dropFromEnd, dropFromStart)
 						panic("expect dropFromEnd>0")
